@@ -18,12 +18,19 @@ out = {"id": sid}
 
 
 def run(cmd, cwd=None, timeout=1800):
+    import signal
+
+    p = subprocess.Popen(cmd, shell=True, cwd=cwd, stdout=subprocess.PIPE, stderr=subprocess.STDOUT, text=True, start_new_session=True)
     try:
-        p = subprocess.run(cmd, shell=True, cwd=cwd, capture_output=True, text=True, timeout=timeout, start_new_session=True)
+        out, _ = p.communicate(timeout=timeout)
     except subprocess.TimeoutExpired:
-        subprocess.run("pkill -f '%s' || true" % cwd.replace("/", "[/]", 1) if cwd else "true", shell=True)
+        try:
+            os.killpg(p.pid, signal.SIGKILL)  # the whole session: pytest and its pool workers
+        except ProcessLookupError:
+            pass
+        p.wait()
         return 124, "timeout"
-    return p.returncode, (p.stdout + p.stderr)[-1500:]
+    return p.returncode, (out or "")[-1500:]
 
 
 try:
